@@ -14,8 +14,25 @@ op list, on add_edges_from arguments, on the initial size) and classified:
 Further streams: networkx round trip (to_networkx / from_networkx) against oracle and model;
 the API surface the model assumes (which classes have remove_edge / update_vertex_number);
 a malformed stream (float, bool, str, None arguments, tuples of the wrong length): whatever
-is refused with an exception must leave every view unchanged."""
+is refused with an exception must leave every view unchanged.
+
+Large streams (notes/LARGE_STREAMS.md), run first as a corpus on graphs with >= 257 / 300 / 1025 vertices, compared through
+the driver command graph_probe (views restricted to named queries, the full has_edge matrix only at the end):
+  * thresholds  operations whose vertices are 15..17, 63..65, 127..129, 255..258, 300, 1000, 1025; every integer argument
+                reaches the implementation either as the one canonical int object of the case or as a freshly computed
+                int (CPython shares int objects up to 256 only): self-loops, duplicates, out-of-range, removals
+  * shapes      a hub of degree 64/65/129/130 built in random order; removal and re-insertion of its largest / smallest /
+                middle neighbour; long predecessor / left-neighbour lists
+  * history     update_vertex_number raising by 2..17 at once and the new vertices used at once; hundreds of edges inserted
+                in random (non sorted) order, singly and through add_edges_from, with removals in between; the object is
+                then converted through networkx and compared again
+  * networkx labels   from_networkx on graphs whose labels include 0, negative numbers, gaps, strings, tuples, unsortable
+                mixtures, 1..n in shuffled insertion order and label sets with max(label) == n; the expected numbering
+                is the documented one (sorted order when the labels can be sorted, else node order; bipartite: node order
+                within each side)."""
 import json
+import random
+import time
 
 from lib import cmd, Sym, is_error, import_impl
 
@@ -711,6 +728,890 @@ def raw_state(G):
 
 
 # --------------------------------------------------------------------------------------------
+# large graphs: thresholds / shapes / history streams, compared through sparse views (graph_probe)
+# --------------------------------------------------------------------------------------------
+THRESH = [15, 16, 17, 63, 64, 65, 127, 128, 129, 255, 256, 257, 258, 300, 1000, 1025]
+FULL_CHECK_MAX = 400      # the quadratic has_edge matrix is looked at (once, at the end of a case) up to this many vertices
+
+
+class Ints:
+    """How an integer argument reaches the implementation.  's': the one canonical int object of this run for that value (the
+    same object every time); 'f': a freshly computed int object (CPython shares int objects only in -5..256, so from 257 on two
+    equal arguments are then two objects)."""
+
+    def __init__(self):
+        self.t = {}
+
+    def get(self, x, mode):
+        if mode == 'f':
+            return int(str(x))
+        return self.t.setdefault(x, x)
+
+
+def query_mode(x, salt):
+    return 'f' if (x + salt) % 2 else 's'
+
+
+def sparse_snapshot(G, kind, query, ints, salt=0):
+    """the views named by query = (full, qu, qv, pairs), in the layout of graph_probe's PVIEW"""
+    full, qu, qv, pairs = query
+
+    def mk(x):
+        return ints.get(x, query_mode(x, salt))
+    edges = q(lambda: [list(e) for e in G.edges()]) if full else None
+    has = [q(G.has_edge, mk(u), mk(v)) for (u, v) in pairs]
+    if kind == 'bipartite':
+        return [q(G.number_of_vertices), q(G.number_of_edges), edges, [] if full else None, has,
+                [q(G.right_neighbors, mk(u)) for u in qu], [q(G.left_neighbors, mk(v)) for v in qv],
+                [q(G.right_degree, mk(u)) for u in qu], [q(G.left_degree, mk(v)) for v in qv], False]
+    if kind == 'simple':
+        return [q(G.number_of_vertices), q(G.number_of_edges), edges, [] if full else None, has,
+                [q(G.neighbors, mk(u)) for u in qu], [], [q(G.degree, mk(u)) for u in qu], [], q(G.is_dag)]
+    return [q(G.number_of_vertices), q(G.number_of_edges), edges,
+            q(lambda: [list(e) for e in G.edges_ordered_by_successors()]) if full else None, has,
+            [q(G.successors, mk(u)) for u in qu], [q(G.predecessors, mk(v)) for v in qv],
+            [q(G.out_degree, mk(u)) for u in qu], [q(G.in_degree, mk(v)) for v in qv], q(G.is_dag)]
+
+
+def oracle_check_sparse(orc, snap, query):
+    """first named view that contradicts the set of inserted edges, or None (out-of-range neighbour queries are not looked at)"""
+    full, qu, qv, pairs = query
+    order, count, edges, edges2, has, n1, n2, d1, d2, dag = snap
+    E, kind = orc.E, orc.kind
+    if kind == 'bipartite':
+        L, R = orc.n, orc.r
+        if order != L + R:
+            return 'order'
+    else:
+        L = R = orc.n
+        if order != L:
+            return 'order'
+    if count != len(E):
+        return 'count'
+    if full:
+        if edges != [list(e) for e in sorted(E)]:
+            return 'edges'
+        if kind == 'directed' and edges2 != [list(e) for e in sorted(E, key=lambda e: (e[1], e[0]))]:
+            return 'edges2'
+    if has != [orc.has(u, v) for (u, v) in pairs]:
+        return 'has'
+    fwd, bwd = {}, {}
+    for (u, v) in E:
+        fwd.setdefault(u, []).append(v)
+        bwd.setdefault(v, []).append(u)
+        if kind == 'simple':
+            fwd.setdefault(v, []).append(u)
+    for i, u in enumerate(qu):
+        if 1 <= u <= L:
+            want = sorted(fwd.get(u, []))
+            if n1[i] != want:
+                return 'nbr1'
+            if d1[i] != len(want):
+                return 'deg1'
+    if kind != 'simple':
+        for j, v in enumerate(qv):
+            if 1 <= v <= R:
+                want = sorted(bwd.get(v, []))
+                if n2[j] != want:
+                    return 'nbr2'
+                if d2[j] != len(want):
+                    return 'deg2'
+    if kind == 'directed' and dag != all(u < v for (u, v) in E):
+        return 'dag'
+    if kind == 'simple' and dag is not False:
+        return 'dag'
+    return None
+
+
+def large_apply(G, op, modes, ints, container='list'):
+    name = METHOD[op[0]]
+    if not hasattr(G, name):
+        return 'NoMethod'
+    try:
+        if op[0] == 'addfrom':
+            es = [(ints.get(u, modes[0]), ints.get(v, modes[-1])) for (u, v) in op[1]]
+            arg = {'list': lambda: es, 'lists': lambda: [list(e) for e in es], 'generator': lambda: (e for e in es),
+                   'tuple': lambda: tuple(es)}[container]()
+            G.add_edges_from(arg)
+        elif op[0] == 'raise':
+            G.update_vertex_number(ints.get(op[1], modes[0]))
+        else:
+            getattr(G, name)(ints.get(op[1], modes[0]), ints.get(op[2], modes[1]))
+        return 'ok'
+    except ValueError:
+        return 'ValueError'
+    except Exception as e:  # noqa
+        return 'Crash:' + type(e).__name__
+
+
+def large_ops(case):
+    return ops_from_json([st['op'] for st in case['steps']])
+
+
+def as_query(qj):
+    return (bool(qj[0]), list(qj[1]), list(qj[2]), [tuple(p) for p in qj[3]])
+
+
+def large_impl_trace(case):
+    """'ValueError' / 'Crash:..' when the constructor refuses, else (snapshot0, [(outcome, snapshot)...], object)"""
+    kind, a, b = case['kind'], case['a'], case['b']
+    r = impl_new(kind, a, b)
+    if r[0] != 'ok':
+        return r[0] if r[0] == 'ValueError' else 'Crash:' + r[1]
+    G, ints, out = r[1], Ints(), []
+    s0 = sparse_snapshot(G, kind, as_query(case['q0']), ints, 0)
+    for i, (st, op) in enumerate(zip(case['steps'], large_ops(case))):
+        o = large_apply(G, op, st['modes'], ints, CONTAINERS[i % 4])
+        out.append((o, sparse_snapshot(G, kind, as_query(st['q']), ints, i)))
+    return (s0, out, G)
+
+
+def large_failure(case, final_full=True):
+    """the implementation against the set-of-edges oracle on the named queries (and on every view at the end).
+    None or (step, what, detail)"""
+    kind, a, b = case['kind'], case['a'], case['b']
+    r = impl_new(kind, a, b)
+    if r[0] != 'ok':
+        return (-1, 'constructor', 'valid size refused: %r' % (r,))
+    G, ints, orc = r[1], Ints(), Oracle(kind, a, b)
+    bad = oracle_check_sparse(orc, sparse_snapshot(G, kind, as_query(case['q0']), ints, 0), as_query(case['q0']))
+    if bad:
+        return (-1, bad, 'fresh object')
+    for i, (st, op) in enumerate(zip(case['steps'], large_ops(case))):
+        qy = as_query(st['q'])
+        before = sparse_snapshot(G, kind, qy, ints, i)
+        raw_before = None
+        want = orc.apply(op, has_method(kind, op))
+        if want in ('ValueError', 'NoMethod') and op[0] != 'addfrom':
+            raw_before = raw_state(G)
+        got = large_apply(G, op, st['modes'], ints, CONTAINERS[i % 4])
+        after = sparse_snapshot(G, kind, qy, ints, i)
+        if norm_outcome(got) != want:
+            return (i, 'outcome', 'raised/returned %s, the property asks %s (argument objects: %s)' % (got, want, st['modes']))
+        if raw_before is not None and (before != after or raw_before != raw_state(G)):
+            return (i, 'side-effect', 'refused call changed a view')
+        bad = oracle_check_sparse(orc, after, qy)
+        if bad:
+            return (i, bad, 'view disagrees with the set of inserted edges')
+        if kind != 'bipartite':
+            try:
+                if list(G.vertices()) != list(range(1, orc.n + 1)) or G.order() != orc.n or len(G) != orc.n:
+                    return (i, 'order', 'vertices() / order() / len() disagree with the vertex count')
+            except Exception as e:  # noqa
+                return (i, 'order', 'vertices() raised %s' % type(e).__name__)
+    if final_full and max(orc.n, orc.r) <= FULL_CHECK_MAX:
+        bad = orc.check(snapshot(G, kind))
+        if bad:
+            return (len(case['steps']) - 1, bad, 'final state: view disagrees with the set of inserted edges')
+    return None
+
+
+def query_sx(qj):
+    return [bool(qj[0]), list(qj[1]), list(qj[2]), [list(p) for p in qj[3]]]
+
+
+def large_req(case):
+    return cmd('graph_probe', Sym(case['kind']), case['a'], case['b'], query_sx(case['q0']),
+               [[op_sx(op), query_sx(st['q'])] for st, op in zip(case['steps'], large_ops(case))])
+
+
+def probe_view(v):
+    order, count, edges, edges2, has, n1, n2, d1, d2, dag = v
+    return [order, count, _opt(edges), _opt(edges2), has, [_opt(x) for x in n1], [_opt(x) for x in n2],
+            [_opt(x) for x in d1], [_opt(x) for x in d2], dag]
+
+
+def large_model_trace(rep):
+    if rep[0] == 'init-error':
+        return 'ValueError'
+    return (probe_view(rep[1]), [(str(o), probe_view(v)) for (o, v) in rep[2]])
+
+
+def large_mismatch(ctx, case):
+    rep = ctx.model.batch([large_req(case)])[0]
+    if is_error(rep):
+        return (-2, 'model-error', None, rep)
+    it = large_impl_trace(case)
+    return first_difference(it if isinstance(it, str) else it[:2], large_model_trace(rep))
+
+
+def large_input(case, steps=None):
+    steps = case['steps'] if steps is None else steps
+    return dict(large=True, stream=case['stream'], scenario=case['scenario'], kind=case['kind'], initial=[case['a'], case['b']],
+                q0=case['q0'], steps=steps,
+                legend="step = op + how each integer argument is passed ('s' the same int object every time, 'f' a freshly computed "
+                       "int) + the views asked after it (full, vertices, vertices of the second kind, has_edge pairs)")
+
+
+def with_steps(case, steps):
+    c = dict(case)
+    c['steps'] = list(steps)
+    return c
+
+
+def budgeted(pred, max_calls=120, max_s=10.0):
+    """shrinking long sequences is best effort: after the budget nothing is reduced any more"""
+    state = dict(n=0, t0=time.time())
+
+    def f(x):
+        if state['n'] >= max_calls or time.time() - state['t0'] > max_s:
+            return False
+        state['n'] += 1
+        return pred(x)
+    return f
+
+
+def report_large(ctx, case, pf, diff):
+    ctx.disagreements_checked += 1
+    kind = case['kind']
+    if pf is not None:
+        step, what, detail = pf
+        site, cls = site_of(kind, large_ops(case), step), 'property:' + what
+        small = case
+        if not any(v['site'] == site and v['cls'] == cls for v in ctx.violations):
+            early = large_failure(case, final_full=False) is not None
+            steps = ddmin(case['steps'], budgeted(lambda st: large_failure(with_steps(case, st), final_full=not early) is not None))
+            small = with_steps(case, steps)
+            step, what, detail = large_failure(small, final_full=False) or large_failure(small) or pf
+        ctx.violation('counterexample',
+                      '%s (%d vertices): after this op sequence the view `%s` contradicts the set of inserted edges (%s)'
+                      % (CLSNAME[kind], case['a'], what, detail),
+                      dict(input=large_input(small), failing_step=step, view=what, detail=detail, original_length=len(case['steps'])),
+                      True, site=site_of(kind, large_ops(small), step), cls='property:' + what)
+        return
+    step, what, iv, mv = diff
+    site, cls = site_of(kind, large_ops(case), step), 'model:' + what
+    small = case
+    if not any(v['site'] == site and v['cls'] == cls for v in ctx.violations):
+        steps = ddmin(case['steps'], budgeted(lambda st: large_mismatch(ctx, with_steps(case, st)) is not None, 60))
+        small = with_steps(case, steps)
+        step, what, iv, mv = large_mismatch(ctx, small) or diff
+    ctx.violation('correspondence',
+                  '%s (%d vertices) differs from the model (coq/GraphObj.v) in `%s` but still agrees with the set-of-edges oracle; '
+                  'theorems C16_* no longer cover the code' % (CLSNAME[kind], case['a'], what),
+                  dict(input=large_input(small), failing_step=step, view=what, implementation=iv, model=mv,
+                       correspondence='coq/GraphObj.v %s_step <-> cnfgen/graphs.py %s' % (kind[0], CLSNAME[kind])),
+                  False, site=site_of(kind, large_ops(small), step), cls='model:' + what)
+
+
+def check_large_case(ctx, case, rep):
+    if is_error(rep):
+        ctx.violation('correspondence', 'model error', dict(input=large_input(case, case['steps'][:10]), model=rep), False,
+                      site='model-error', cls=case['kind'])
+        return True
+    pf = large_failure(case)
+    it = large_impl_trace(case)
+    diff = first_difference(it if isinstance(it, str) else it[:2], large_model_trace(rep))
+    if pf is None and diff is None:
+        return False
+    report_large(ctx, case, pf, diff)
+    return True
+
+
+class LargeBuilder:
+    """accumulates the steps of one large case; keeps a set-of-edges track only to aim the generator"""
+
+    def __init__(self, rng, stream, scenario, kind, a, b, full_every=16):
+        self.rng, self.kind, self.a, self.b = rng, kind, a, b
+        self.track = Oracle(kind, a, b)
+        self.steps = []
+        self.watch_u, self.watch_v = set(), set()
+        self.full_every = full_every
+        self.stream, self.scenario = stream, scenario
+
+    def sizes(self):
+        return (self.track.n, self.track.r if self.kind == 'bipartite' else self.track.n)
+
+    def query(self, op, full, extra_u=(), extra_v=(), extra_pairs=()):
+        n1, n2 = self.sizes()
+        us, vs, pairs = set(self.watch_u) | set(extra_u), set(self.watch_v) | set(extra_v), list(extra_pairs)
+        es = []
+        if op is not None and op[0] in ('add', 'remove'):
+            es = [(op[1], op[2])]
+        elif op is not None and op[0] == 'addfrom':
+            es = list(op[1][:2]) + list(op[1][-2:])
+        elif op is not None and op[0] == 'raise':
+            us |= {op[1] - 1, op[1], op[1] + 1}
+        for (u, v) in es:
+            us.add(u)
+            vs.add(v)
+            if self.kind != 'bipartite':
+                us.add(v)
+                vs.add(u)
+            pairs += [(u, v), (v, u), (u, u), (v, v)]
+        for h in sorted(self.watch_u)[:4]:
+            for w in sorted(self.watch_v)[:4]:
+                pairs.append((h, w))
+        if full:
+            us, vs = set(qrange(n1)), set(qrange(n2))
+        if self.kind == 'simple':
+            us, vs = us | vs if not full else us, set()
+        big = 4 * max(n1, n2) + 8
+        us = sorted(x for x in us if -big <= x <= big)
+        vs = sorted(x for x in vs if -big <= x <= big)
+        seen, ps = set(), []
+        for p in pairs:
+            if p not in seen:
+                seen.add(p)
+                ps.append(list(p))
+        return [bool(full), us, vs, ps[:60]]
+
+    def step(self, op, modes=None, full=None, **extra):
+        rng = self.rng
+        if modes is None:
+            modes = ''.join(rng.choice('sf') for _ in range(1 if op[0] in ('raise', 'addfrom') else 2))
+            if op[0] == 'addfrom':
+                modes = modes * 2 if rng.random() < 0.7 else rng.choice(['sf', 'fs'])
+        self.track.apply(op, has_method(self.kind, op))
+        if full is None:
+            full = len(self.steps) % self.full_every == self.full_every - 1
+        jop = jsonable_ops([op])[0]
+        self.steps.append(dict(op=jop, modes=modes, q=self.query(op, full, **extra)))
+
+    def case(self):
+        if self.steps:
+            # the last step always looks at everything
+            last = self.steps[-1]
+            last['q'] = self.query(ops_from_json([last['op']])[0], True)
+        return dict(stream=self.stream, scenario=self.scenario, kind=self.kind, a=self.a, b=self.b,
+                    q0=self.query(None, True), steps=self.steps)
+
+
+def both_modes(rng):
+    return rng.choice(['ss', 'ff', 'sf', 'fs'])
+
+
+def gen_hub(rng, kind, D):
+    """shapes: a hub of degree D built in random order, then its largest / smallest / middle neighbours removed
+    (Graph) and inserted again; duplicates given as other int objects; new neighbours next to the extremes"""
+    n = rng.choice([300, 301, 310, 384])
+    B = LargeBuilder(rng, 'large-shapes', 'hub-degree-%d' % D, kind, n, n if kind == 'bipartite' else 0)
+    hub = rng.choice([1, 2, 129, 256, 257, 258, n - 1, n])
+    hub2 = rng.choice([x for x in (1, 128, 257, 258, 299, n) if x != hub])
+    others = rng.sample([x for x in range(1, n + 1) if x != hub], D)
+    others2 = rng.sample([x for x in range(1, n + 1) if x != hub2], D)
+    B.watch_u.add(hub)
+    B.watch_v.add(hub2 if kind != 'simple' else hub)
+    ins = []
+    if kind == 'simple':
+        ins = [(hub, w) if rng.random() < 0.5 else (w, hub) for w in others]
+    elif kind == 'directed':
+        ins = [(hub, w) for w in others] + [(w, hub2) for w in others2]
+    else:
+        ins = [(hub, w) for w in others] + [(w, hub2) for w in others2]
+    rng.shuffle(ins)
+    i = 0
+    while i < len(ins):
+        if rng.random() < 0.15:
+            k = rng.randint(2, 12)
+            B.step(('addfrom', ins[i:i + k]))
+            i += k
+        else:
+            B.step(('add',) + ins[i])
+            i += 1
+    nb = sorted(others)
+    picks = [nb[-1], nb[0], nb[len(nb) // 2]]
+
+    def e(w):
+        return (hub, w) if (kind != 'simple' or rng.random() < 0.5) else (w, hub)
+    ex = dict(extra_u=picks, extra_pairs=[(hub, w) for w in picks] + [(w, hub) for w in picks])
+    for w in picks:
+        B.step(('remove',) + e(w), modes=both_modes(rng), full=True, **ex)
+    order = list(picks)
+    rng.shuffle(order)
+    for w in order:
+        B.step(('add',) + e(w), modes=both_modes(rng), full=True, **ex)
+    for w in order:
+        B.step(('add',) + e(w), modes=both_modes(rng), **ex)             # duplicates: no-ops
+    B.step(('remove',) + e(picks[2]), modes=both_modes(rng), full=True, **ex)
+    free = [x for x in range(1, n + 1) if x != hub and x not in others]
+    near = sorted(free, key=lambda x: abs(x - picks[2]))[:2] + [min(free), max(free)]
+    for w in near:
+        B.step(('add',) + e(w), modes=both_modes(rng), full=True, extra_u=[w], extra_pairs=[(hub, w), (w, hub)])
+    B.step(('add',) + e(picks[2]), modes=both_modes(rng), **ex)
+    if kind != 'simple':
+        nb2 = sorted(others2)
+        for w in (nb2[-1], nb2[0], nb2[len(nb2) // 2]):
+            B.step(('add', w, hub2), modes=both_modes(rng), extra_u=[w], extra_pairs=[(w, hub2)])
+        free2 = [x for x in range(1, n + 1) if x != hub2 and x not in others2]
+        for w in sorted(free2, key=lambda x: abs(x - nb2[len(nb2) // 2]))[:2] + [min(free2), max(free2)]:
+            B.step(('add', w, hub2), modes=both_modes(rng), full=True, extra_u=[w], extra_pairs=[(w, hub2)])
+    return B.case()
+
+
+def gen_thresholds(rng, kind, n, length=110):
+    """thresholds: every vertex argument is one of the threshold values (or just outside the range), every argument is
+    passed as the canonical object or as a fresh one"""
+    r = rng.choice([257, 258, 300]) if kind == 'bipartite' else 0
+    B = LargeBuilder(rng, 'large-thresholds', 'vertices-at-thresholds', kind, n, r, full_every=10)
+    n2 = r if kind == 'bipartite' else n
+    P1 = [x for x in THRESH + [n - 1, n] if 1 <= x <= n]
+    P2 = [x for x in THRESH + [n2 - 1, n2] if 1 <= x <= n2]
+    bad1 = [0, -1, n + 1, n + 2, -257, 2 * n, -n]
+    bad2 = [0, -1, n2 + 1, n2 + 2, -257, 2 * n2, -n2]
+    B.watch_u |= set(rng.sample(P1, 3)) | {n}
+    B.watch_v |= set(rng.sample(P2, 3)) | {n2}
+    for _ in range(length):
+        x = rng.random()
+        E = sorted(B.track.E)
+        if x < 0.34:
+            u, v = rng.choice(P1), rng.choice(P2)
+            if u == v and kind == 'simple':
+                continue
+            B.step(('add', u, v))
+        elif x < 0.46:
+            u = rng.choice([y for y in P1 if y in P2])
+            B.step(('add', u, u), modes=rng.choice(['ss', 'ff', 'ff', 'sf']))          # self-loop
+        elif x < 0.62 and E:
+            u, v = rng.choice(E)
+            if kind == 'simple' and rng.random() < 0.5:
+                u, v = v, u
+            B.step(('add', u, v), modes=both_modes(rng))                               # duplicate
+        elif x < 0.74:
+            u, v = rng.choice([(rng.choice(bad1), rng.choice(P2)), (rng.choice(P1), rng.choice(bad2)),
+                               (rng.choice(bad1), rng.choice(bad2))])
+            B.step((rng.choice(['add', 'add', 'remove']), u, v))
+        elif x < 0.88:
+            if E and rng.random() < 0.7:
+                u, v = rng.choice(E)
+                if rng.random() < 0.5:
+                    u, v = v, u
+            else:
+                u, v = rng.choice(P1), rng.choice(P2)
+            B.step(('remove', u, v), modes=both_modes(rng))
+        elif x < 0.97:
+            es = []
+            for _ in range(rng.randint(0, 6)):
+                y = rng.random()
+                if y < 0.7 or not E:
+                    es.append((rng.choice(P1), rng.choice(P2)))
+                elif y < 0.9:
+                    es.append(rng.choice(E))
+                else:
+                    es.append((rng.choice(P1), rng.choice(bad2)))
+            B.step(('addfrom', es))
+        else:
+            B.step(('raise', rng.choice([n, n - 1, 0, -1, B.track.n + 2])))
+    return B.case()
+
+
+def gen_raise(rng, kind, n0, d):
+    """history: update_vertex_number raises the count by d >= 2 at once; the new vertices are used at once"""
+    B = LargeBuilder(rng, 'large-history', 'raise-by-%d' % d, kind, n0, n0 if kind == 'bipartite' else 0, full_every=4)
+    for _ in range(min(n0, 6)):
+        u, v = rng.randint(1, n0), rng.randint(1, n0)
+        if u != v or kind != 'simple':
+            B.step(('add', u, v))
+    for rnd in range(2):
+        old = B.track.n
+        new = old + (d if rnd == 0 else 2)
+        fresh = list(range(old + 1, new + 1))
+        B.step(('raise', new), full=True, extra_u=fresh + [new + 1])
+        if not has_method(kind, ('raise', new)):
+            break
+        use = [(new, old + 1)] if new != old + 1 else []
+        use += [(old + 1, old + 2), (new - 1, new), (new, new + 1), (new + 1, new)]
+        if old >= 1:
+            use += [(old, new), (old + 1, 1), (rng.randint(1, old), rng.choice(fresh))]
+        use += [(x, rng.choice(fresh)) for x in fresh]
+        rng.shuffle(use)
+        for (u, v) in use:
+            if u != v:
+                B.step(('add', u, v), extra_u=fresh[:8] + fresh[-8:] + [new + 1])
+        B.step(('add', new, new), modes='ff')
+        B.step(('remove', new, old + 1), full=True, extra_u=fresh[:8] + fresh[-8:])
+        B.step(('add', old + 1, new), full=True, extra_u=fresh[:8] + fresh[-8:])
+    B.step(('raise', B.track.n - 2 if B.track.n >= 2 else 0), full=True)
+    B.step(('raise', -1))
+    B.step(('raise', B.track.n), modes='f')
+    if B.track.n >= 2:
+        B.step(('add', B.track.n, 1), full=True)
+    return B.case()
+
+
+def gen_random_order(rng, kind, n, heavy_sizes, sparse, removals):
+    """history: edges inserted in random order (singly and through add_edges_from); some vertices end up with long
+    neighbour lists on either side; removals and re-insertions in between (Graph)"""
+    r = n if kind == 'bipartite' else 0
+    B = LargeBuilder(rng, 'large-history', 'random-insertion-order', kind, n, r, full_every=25)
+    n2 = n
+    edges = set()
+    verts = list(range(1, n + 1))
+    for k, size in enumerate(heavy_sizes):
+        h = rng.choice(verts)
+        side = k % 2
+        for w in rng.sample([x for x in verts if x != h], min(size, n - 1)):
+            e = (h, w) if side == 0 else (w, h)
+            if kind == 'simple':
+                e = (min(e), max(e))
+            edges.add(e)
+        (B.watch_u if side == 0 or kind == 'simple' else B.watch_v).add(h)
+    most = n * (n - 1) // 2 if kind == 'simple' else n * n
+    target = min(sum(min(s, n - 1) for s in heavy_sizes) + sparse, (most * 8) // 10)
+    while len(edges) < target:
+        u, v = rng.randint(1, n), rng.randint(1, n2)
+        if kind == 'simple':
+            if u == v:
+                continue
+            u, v = min(u, v), max(u, v)
+        edges.add((u, v))
+    todo = list(edges)
+    rng.shuffle(todo)
+    if kind == 'simple':
+        todo = [(u, v) if rng.random() < 0.5 else (v, u) for (u, v) in todo]
+    i, removed = 0, 0
+    while i < len(todo):
+        x = rng.random()
+        if x < 0.12:
+            k = rng.randint(2, 30)
+            B.step(('addfrom', todo[i:i + k]))
+            i += k
+        elif x < 0.12 + (0.1 if removed < removals else 0) and B.track.E:
+            u, v = rng.choice(sorted(B.track.E))
+            if rng.random() < 0.5:
+                u, v = v, u
+            B.step(('remove', u, v), modes=both_modes(rng))
+            if has_method(kind, ('remove', u, v)):
+                todo.append((u, v))
+            removed += 1
+        else:
+            B.step(('add',) + todo[i])
+            i += 1
+    return B.case()
+
+
+def large_cases(rng, quick):
+    cases = []
+    reps = 1 if quick else 8
+    for _ in range(reps):
+        for kind in KINDS:
+            for D in (64, 129):
+                cases.append(gen_hub(rng, kind, D))
+        cases.append(gen_hub(rng, rng.choice(KINDS), 65))
+        cases.append(gen_hub(rng, rng.choice(KINDS), 130))
+        for kind in KINDS:
+            cases.append(gen_thresholds(rng, kind, rng.choice([257, 258, 300])))
+            cases.append(gen_thresholds(rng, kind, 1025, length=60))
+        for (n0, d) in [(255, 3), (256, 2), (300, 17), (0, 2), (15, 2), (1, 5)]:
+            cases.append(gen_raise(rng, 'simple', n0, d))
+        cases.append(gen_raise(rng, 'directed', 256, 2))
+        cases.append(gen_raise(rng, 'bipartite', 256, 2))
+        for kind in KINDS:
+            cases.append(gen_random_order(rng, kind, rng.choice([300, 320]), [129, 130, 65, 64, 17, 16], 120, 12))
+            for _ in range(2):
+                n = rng.choice([18, 24, 40, 70])
+                cases.append(gen_random_order(rng, kind, n, [n - 1, n - 1, 17, 16], rng.choice([0, n, n * n // 3]), 8))
+    return cases
+
+
+def run_large(ctx, rng):
+    quick = ctx.tier == 'quick'
+    cases = large_cases(rng, quick)
+    replies = ctx.model.batch([large_req(c) for c in cases])
+    for ci, (case, rep) in enumerate(zip(cases, replies)):
+        kind = case['kind']
+        ctx.count(case['stream'], (kind, case['a'], case['b'], json.dumps(case['steps'])), len(case['steps']) > 0,
+                  sample=dict(scenario=case['scenario'], kind=kind, initial=[case['a'], case['b']], steps=case['steps'][:3],
+                              length=len(case['steps'])))
+        ctx.tally('large: scenario', '%s/%s' % (case['scenario'], kind))
+        ctx.tally('large: initial size', case['a'])
+        for st in case['steps']:
+            ctx.tally('large: op', st['op'][0])
+            ctx.tally('large: argument objects (s = same int object, f = freshly computed int)', st['op'][0] + '/' + st['modes'])
+        orc = Oracle(kind, case['a'], case['b'])
+        for op in large_ops(case):
+            orc.apply(op, has_method(kind, op))
+        fwd, bwd = {}, {}
+        for (u, v) in orc.E:
+            fwd[u] = fwd.get(u, 0) + 1
+            bwd[v] = bwd.get(v, 0) + 1
+            if kind == 'simple':
+                fwd[v] = fwd.get(v, 0) + 1
+        ctx.tally('large: final maximum degree', max(list(fwd.values()) + list(bwd.values()) + [0]))
+        ctx.tally('large: final edge count (bucket of 50)', (len(orc.E) // 50) * 50)
+        if check_large_case(ctx, case, rep):
+            continue
+        # the object is reused: conversion through networkx and back (every view of the copy, the reordered copy too)
+        if (quick and ci % 2) or max(orc.n, orc.r) > FULL_CHECK_MAX:
+            continue
+        it = large_impl_trace(case)
+        fail = nx_roundtrip_failure(kind, it[2], orc, rng)
+        ctx.count('networkx-roundtrip', ('large', kind, case['a'], case['b'], json.dumps(case['steps'])), len(orc.E) > 0,
+                  sample=dict(kind=kind, initial=[case['a'], case['b']], edges=len(orc.E)))
+        if fail:
+            ctx.disagreements_checked += 1
+
+            def still(steps):
+                c = with_steps(case, steps)
+                t = large_impl_trace(c)
+                if isinstance(t, str):
+                    return False
+                oc = Oracle(kind, case['a'], case['b'])
+                for op in large_ops(c):
+                    oc.apply(op, has_method(kind, op))
+                return nx_roundtrip_failure(kind, t[2], oc) is not None
+            steps = ddmin(case['steps'], budgeted(still)) if still(case['steps']) else case['steps']
+            ctx.violation('counterexample', '%s: conversion through networkx does not preserve vertices and edges (%s)' % (CLSNAME[kind], fail),
+                          dict(input=dict(large_input(case, steps), then='from_networkx(to_networkx())'), detail=fail),
+                          True, site=CLSNAME[kind] + '.networkx', cls='roundtrip')
+
+
+# --------------------------------------------------------------------------------------------
+# networkx graphs with arbitrary labels -> cnfgen graph objects
+# --------------------------------------------------------------------------------------------
+NX_SCHEMES = ['identity-shuffled', 'zero-based', 'negative', 'gaps', 'max-is-n', 'strings', 'numeric-strings', 'tuples', 'floats',
+              'mixed']
+BIP_SCHEMES = ['to_networkx-format', 'right-first', 'interleaved', 'zero-based', 'negative-gaps', 'strings', 'mixed']
+
+
+def nx_labels(rng, n, scheme):
+    if scheme == 'identity-shuffled':
+        return list(range(1, n + 1))
+    if scheme == 'zero-based':
+        return list(range(n))
+    if scheme == 'negative':
+        k = rng.randint(1, n + 2)
+        return list(range(-k, n - k))
+    if scheme == 'gaps':
+        return rng.sample(range(-20, 4 * n + 20), n)
+    if scheme == 'max-is-n':            # n labels, the largest is n, but they are not 1..n
+        if n < 2:
+            return list(range(1, n + 1))
+        j = rng.randint(1, n - 1)
+        return [x for x in range(0, n + 1) if x != j]
+    if scheme == 'strings':
+        return ['v%d' % i for i in range(1, n + 1)]
+    if scheme == 'numeric-strings':
+        return [str(i) for i in range(1, n + 1)]
+    if scheme == 'tuples':
+        w = max(1, int(n ** 0.5))
+        return [(i // w, i % w) for i in range(n)]
+    if scheme == 'floats':
+        return [i if i % 3 else i + 0.5 for i in range(n)]
+    return [i if i % 2 else 'v%d' % i for i in range(n)]       # mixed: cannot be sorted when n >= 2
+
+
+def gen_nx_plain(rng, kind, n, scheme):
+    """a networkx Graph / DiGraph with the labels of the scheme, nodes and edges inserted in random order.
+    Returns (X, description)"""
+    import networkx
+    labels = nx_labels(rng, n, scheme)
+    order = list(labels)
+    rng.shuffle(order)
+    X = networkx.DiGraph() if kind == 'directed' else networkx.Graph()
+    for u in order:
+        X.add_node(u)
+    pairs = set()
+    if n >= 2:
+        if n >= 130:
+            h = rng.choice(labels)
+            for w in rng.sample([x for x in labels if x != h], 129):
+                pairs.add((h, w) if rng.random() < 0.5 else (w, h))
+        for _ in range(rng.choice([0, 1, n, 2 * n, 3 * n]) if n < 130 else n):
+            u, v = rng.choice(labels), rng.choice(labels)
+            if u != v:
+                pairs.add((u, v))
+    if kind == 'directed' and n >= 1 and rng.random() < 0.2:
+        u = rng.choice(labels)
+        pairs.add((u, u))
+    es = list(pairs)
+    rng.shuffle(es)
+    for (u, v) in es:
+        X.add_edge(u, v)
+    return X, dict(kind=kind, scheme=scheme, nodes_in_insertion_order=[repr(u) for u in order][:40], order=n,
+                   edges_in_insertion_order=[[repr(u), repr(v)] for (u, v) in es][:60], edges=len(es))
+
+
+def gen_nx_bip(rng, L, R, scheme):
+    import networkx
+    if scheme == 'to_networkx-format':
+        left, right = list(range(1, L + 1)), list(range(L + 1, L + R + 1))
+    elif scheme == 'right-first':
+        right, left = list(range(1, R + 1)), list(range(R + 1, R + L + 1))
+    elif scheme == 'interleaved':
+        allv = list(range(1, L + R + 1))
+        left = sorted(rng.sample(allv, L))
+        right = [x for x in allv if x not in set(left)]
+    elif scheme == 'zero-based':
+        left, right = list(range(L)), list(range(L, L + R))
+    elif scheme == 'negative-gaps':
+        allv = rng.sample(range(-30, 3 * (L + R) + 30), L + R)
+        left, right = allv[:L], allv[L:]
+    elif scheme == 'strings':
+        left, right = ['l%d' % i for i in range(1, L + 1)], ['r%d' % i for i in range(1, R + 1)]
+    else:
+        left = [i if i % 2 else 'l%d' % i for i in range(L)]
+        right = [(i,) if i % 2 else 'r%d' % i for i in range(R)]
+    if scheme not in ('to_networkx-format',) or rng.random() < 0.5:
+        if rng.random() < 0.7:
+            rng.shuffle(left)
+            rng.shuffle(right)
+    lq, rq = list(left), list(right)
+    X = networkx.Graph()
+    nodes = []
+    while lq or rq:
+        if lq and (not rq or rng.random() < 0.5):
+            u, side = lq.pop(0), 0
+        else:
+            u, side = rq.pop(0), 1
+        attr = rng.choice([side, str(side)])
+        X.add_node(u, bipartite=attr)
+        nodes.append((u, attr))
+    pairs = set()
+    if L and R:
+        if L >= 130 and R >= 130:
+            h = rng.choice(left)
+            for w in rng.sample(right, 129):
+                pairs.add((h, w))
+            h = rng.choice(right)
+            for w in rng.sample(left, 129):
+                pairs.add((w, h))
+        for _ in range(rng.choice([0, 1, L, L + R, 3 * (L + R)]) if L < 130 else L):
+            pairs.add((rng.choice(left), rng.choice(right)))
+    es = [(u, v) if rng.random() < 0.5 else (v, u) for (u, v) in pairs]
+    rng.shuffle(es)
+    for (u, v) in es:
+        X.add_edge(u, v)
+    return X, left, right, pairs, dict(kind='bipartite', scheme=scheme, nodes_in_insertion_order=[[repr(u), repr(a)] for (u, a) in nodes][:40],
+                                       sides=[L, R], edges_in_insertion_order=[[repr(u), repr(v)] for (u, v) in es][:60], edges=len(es))
+
+
+def label_order(X):
+    """the documented numbering of Graph / DirectedGraph.from_networkx: sorted order when the labels can be sorted
+    (`the order is preserved`), and None when they cannot (then only a renumbering 1..n is promised)"""
+    try:
+        return sorted(X.nodes())
+    except TypeError:
+        return None
+
+
+def run_nx_labels(ctx, rng):
+    import networkx
+    quick = ctx.tier == 'quick'
+    jobs = []
+    sizes = [0, 1, 2, 3, 4, 5, 6, 8, 9, 12]
+    for rep in range(1 if quick else 6):
+        for kind in ('simple', 'directed'):
+            for scheme in NX_SCHEMES:
+                for n in ([2, 3, 5, rng.choice(sizes), rng.choice(sizes)] if quick else sizes + [17, 33]):
+                    jobs.append((kind, n, scheme))
+        for scheme in BIP_SCHEMES:
+            for _ in range(5 if quick else 14):
+                jobs.append(('bipartite', (rng.choice([0, 1, 2, 3, 4, 6]), rng.choice([0, 1, 2, 3, 5, 7])), scheme))
+        for kind in ('simple', 'directed'):
+            for j, (scheme, n) in enumerate([('identity-shuffled', 257), ('max-is-n', 300), ('zero-based', 258), ('gaps', 300),
+                                             ('numeric-strings', 130), ('mixed', 257), ('negative', 300), ('tuples', 289)]):
+                if quick and (j + (kind == 'directed')) % 2:
+                    continue
+                jobs.append((kind, n, scheme))
+        for scheme in (['to_networkx-format', 'interleaved', 'right-first'] if quick else BIP_SCHEMES):
+            jobs.append(('bipartite', (rng.choice([150, 257]), rng.choice([150, 258])), scheme))
+    work, reqs = [], []
+    for (kind, n, scheme) in jobs:
+        ctx.tally('networkx labels: scheme', kind + '/' + scheme)
+        ctx.tally('networkx labels: order', n if not isinstance(n, tuple) else '%d,%d' % n)
+        if kind == 'bipartite':
+            X, left, right, pairs, descr = gen_nx_bip(rng, n[0], n[1], scheme)
+            iu = {u: i for i, u in enumerate([u for u in X.nodes() if X.nodes[u]['bipartite'] in (0, '0')], start=1)}
+            iv = {v: i for i, v in enumerate([v for v in X.nodes() if X.nodes[v]['bipartite'] in (1, '1')], start=1)}
+            orc = Oracle(kind, n[0], n[1])
+            orc.E = {(iu[u], iv[v]) for (u, v) in pairs}
+            exact = True
+        else:
+            X, descr = gen_nx_plain(rng, kind, n, scheme)
+            order = label_order(X)
+            exact = order is not None
+            if order is None:
+                order = list(X.nodes())            # what the code does when the labels cannot be sorted (not promised)
+            idx = {u: i for i, u in enumerate(order, start=1)}
+            orc = Oracle(kind, n, 0)
+            orc.E = {orc.norm(idx[u], idx[v]) for (u, v) in X.edges()}
+        descr['expected_edges'] = [list(e) for e in sorted(orc.E)][:60]
+        descr['numbering_promised'] = exact
+        fq = [True, qrange(orc.n), qrange(orc.r if kind == 'bipartite' else orc.n) if kind != 'simple' else [], []]
+        reqs.append(cmd('graph_probe', Sym(kind), orc.n, orc.r, query_sx(fq), [[op_sx(('addfrom', sorted(orc.E))), query_sx(fq)]]))
+        work.append((kind, scheme, X, orc, exact, descr, fq))
+    replies = ctx.model.batch(reqs)
+    for (kind, scheme, X, orc, exact, descr, fq), rep in zip(work, replies):
+        ctx.count('networkx-labels', json.dumps(descr, sort_keys=True), len(orc.E) > 0, sample=descr)
+        site = CLSNAME[kind] + '.from_networkx'
+        try:
+            G = impl_class(kind).from_networkx(X)
+        except Exception as e:  # noqa
+            ctx.disagreements_checked += 1
+            ctx.violation('counterexample', '%s.from_networkx raised %s on a valid networkx graph (labels: %s)' % (CLSNAME[kind], type(e).__name__, scheme),
+                          dict(input=descr, raised=type(e).__name__, message=str(e)[:200]), True, site=site, cls='labels:raises-' + type(e).__name__)
+            continue
+        big = max(orc.n, orc.r) > 40
+        snap = sparse_snapshot(G, kind, as_query(fq), Ints(), 1)
+        bad = oracle_check_sparse(orc, snap, as_query(fq)) if big else orc.check(snapshot(G, kind))
+        if bad and not exact:
+            # the labels cannot be sorted: only SOME numbering 1..n is promised -- count / order / degree multiset must still hold
+            degs = sorted(len(list(X.predecessors(u))) + len(list(X.successors(u))) if kind == 'directed' else
+                          sum(1 for w in X.neighbors(u) if w != u) for u in X.nodes())
+            gd = sorted((G.in_degree(u) + G.out_degree(u)) if kind == 'directed' else G.degree(u) for u in range(1, G.number_of_vertices() + 1)) \
+                if G.number_of_vertices() == orc.n else None
+            weak_ok = G.number_of_vertices() == orc.n and G.number_of_edges() == len(orc.E) and gd == degs
+            ctx.disagreements_checked += 1
+            if weak_ok:
+                ctx.violation('correspondence', '%s.from_networkx numbers labels that cannot be sorted in another order than node order (view %s); '
+                              'nothing is promised there, but the recorded behaviour (C16_*_networkx, relabelling abstracted) changed' % (CLSNAME[kind], bad),
+                              dict(input=descr, view=bad, correspondence='harness/c16.py label_order <-> cnfgen/graphs.py normalize_networkx_labels'),
+                              False, site=site, cls='labels-unsortable:' + bad)
+                continue
+        if bad:
+            ctx.disagreements_checked += 1
+            got = q(lambda: [list(e) for e in G.edges()])
+            ctx.violation('counterexample', '%s.from_networkx: view `%s` is not that of the documented renumbering (labels: %s; %s)'
+                          % (CLSNAME[kind], bad, scheme, 'sorted label order' if kind != 'bipartite' else 'node order within each side'),
+                          dict(input=descr, view=bad, got_order=q(G.number_of_vertices), got_edges=got[:60] if isinstance(got, list) else got), True,
+                          site=site, cls='labels:' + bad)
+            continue
+        if is_error(rep) or rep[0] != 'ok':
+            ctx.violation('correspondence', 'model error', dict(input=descr, model=rep), False, site='model-error', cls=kind)
+            continue
+        mo, mv = rep[2][0]
+        mv = probe_view(mv)
+        if str(mo) != 'ok' or snap != mv:
+            ctx.disagreements_checked += 1
+            badv = [nm for nm, x, y in zip(VIEWNAMES, snap, mv) if x != y]
+            ctx.violation('correspondence', 'from_networkx: implementation and model (add_edges_from of the renumbered edges) differ in %s' % badv,
+                          dict(input=descr, implementation=snap[:2], model=mv[:2], correspondence='coq/GraphObj.v g_from_nx / d_from_nx / b_from_nx'),
+                          False, site=site, cls='model:' + (badv or ['outcome'])[0])
+    # ---- what must be refused (BipartiteGraph.from_networkx documents ValueError)
+    for i in range(30 if quick else 300):
+        L, R = rng.randint(1, 5), rng.randint(1, 5)
+        X, left, right, pairs, descr = gen_nx_bip(rng, L, R, rng.choice(BIP_SCHEMES))
+        how = rng.choice(['no-attribute', 'attribute-2', 'edge-inside-a-side', 'not-a-graph'])
+        if how == 'no-attribute':
+            X.add_node('extra')
+        elif how == 'attribute-2':
+            X.add_node('extra', bipartite=2)
+        elif how == 'edge-inside-a-side':
+            side = left if (len(left) >= 2 and (len(right) < 2 or rng.random() < 0.5)) else right
+            if len(side) < 2:
+                continue
+            u, v = rng.sample(side, 2)
+            X.add_edge(u, v)
+        else:
+            X = [(1, 2)]
+        descr['malformed'] = how
+        ctx.tally('networkx labels: refused input', how)
+        ctx.count('networkx-labels-refused', json.dumps(descr, sort_keys=True), True, sample=descr)
+        try:
+            impl_class('bipartite').from_networkx(X)
+            got = 'accepted'
+        except ValueError:
+            got = 'ValueError'
+        except Exception as e:  # noqa
+            got = type(e).__name__
+        if got != 'ValueError':
+            ctx.disagreements_checked += 1
+            ctx.violation('counterexample', 'BipartiteGraph.from_networkx: %s instead of the documented ValueError (%s)' % (got, how),
+                          dict(input=descr, got=got), True, site='BipartiteGraph.from_networkx', cls='refusal:' + how)
+
+
+# --------------------------------------------------------------------------------------------
 # run
 # --------------------------------------------------------------------------------------------
 def check_case(ctx, kind, a, b, ops, rep):
@@ -748,6 +1649,11 @@ def run(ctx):
             ctx.count('api-surface', (kind, meth), True, sample=dict(cls=CLSNAME[kind], method=meth, present=have))
             if have != want:
                 ctx.note('%s.%s present=%s (model assumes %s): ops of this kind are judged by the oracle only' % (CLSNAME[kind], meth, have, want))
+
+    # ---- large graphs, thresholds, histories, label schemes (always run, first) ----------------
+    lrng = random.Random('%d-c16-large' % ctx.seed)      # derived from the seed; the streams below keep their own sequence
+    run_large(ctx, lrng)
+    run_nx_labels(ctx, lrng)
 
     # ---- fixed corner sequences (always run) ------------------------------------------------
     corpus = [
@@ -838,6 +1744,12 @@ def replay(ctx, rp):
     """./check C16 --replay FILE : rerun the recorded sequence"""
     import_impl()
     inp = rp.get('input', {})
+    if inp.get('large'):
+        case = dict(stream=inp.get('stream', 'large'), scenario=inp.get('scenario', ''), kind=inp['kind'], a=inp['initial'][0],
+                    b=inp['initial'][1], q0=inp['q0'], steps=inp['steps'])
+        ctx.count(case['stream'], json.dumps(case['steps']), True, sample=dict(kind=case['kind'], initial=inp['initial']))
+        check_large_case(ctx, case, ctx.model.batch([large_req(case)])[0])
+        return
     if 'ops' not in inp:
         return run(ctx)
     kind, (a, b), ops = inp['kind'], inp['initial'], ops_from_json(inp['ops'])
